@@ -186,12 +186,11 @@ def replay_aero(ob, env, sh, sf, m, nx, nyh, root_on_plane):
 def conventions(rep, tier, timeout):
     """Factor-of-two / symmetric conventions, component by component: half-model output == full-model output on the
     mirror-symmetric extension of the inputs."""
-    nyhs = [2, 3] if tier == "quick" else [2, 3, 4, 5]
-    for nyh in nyhs:
-        nx = 2
+    sizes = [(2, 2), (2, 3), (3, 2)] if tier == "quick" else [(2, 2), (2, 3), (3, 2), (2, 4), (3, 3), (2, 5)]
+    for nx, nyh in sizes:
         nyf = 2 * nyh - 1
         nym = nyh - 1
-        lab = "ny_half=%d" % nyh
+        lab = "nx=%d ny_half=%d" % (nx, nyh)
 
         def pair(mod, cls, over=None, **kw):
             over = over or {}
@@ -291,7 +290,7 @@ def conventions(rep, tier, timeout):
            {"CM": lambda o: o["CM"], "M": lambda o: o["M"]})
         # MomentCoefficient with two surfaces in every half/full combination against the all-full model: the normalising
         # chord is the first surface's, whatever the other surfaces' symmetry flags are
-        if nyh == 2:
+        if nyh == 2 and nx == 2:
             th_, tf_ = K.surface(nx, nyh, True, name="tail"), K.surface(nx, nyf, False, name="tail")
             bpt = symarray("tail_b_pts", (nx - 1, nyh, 3))
             for i in range(nx - 1):
